@@ -157,8 +157,18 @@ class BaseStorer(ABC):
             (self.num_output_per_event_, other.num_output_per_event_)
         )
 
-        # Adjust event_number for the parts that originally belonged to other
-        combined_num_output_per_event[self.num_events_ :, 0] += self.num_events_
+        # Adjust event_number for the parts that originally belonged to other:
+        # they continue after the last event number of self
+        if (
+            len(self.num_output_per_event_) > 0
+            and len(other.num_output_per_event_) > 0
+        ):
+            shift = (
+                self.num_output_per_event_[-1, 0]
+                + 1
+                - other.num_output_per_event_[0, 0]
+            )
+            combined_num_output_per_event[self.num_events_ :, 0] += shift
 
         combined_storer: BaseStorer = self.__class__.__new__(self.__class__)
         combined_storer.__dict__.update(
